@@ -103,7 +103,10 @@ fn do_value(syms: &Syms, text: &str) -> Value {
                     return json!({"outcome": "Panic", "panic": format!("reduce: {}", msg)});
                 }
             }
-            json!({"outcome": "Ok", "tree": tree(syms, &[], &v), "hasFk": has_fk})
+            let mut indexer = parse_locales::StringIndexer::default();
+            v.index_strings(&mut indexer);
+            let strings = indexer.get_strings();
+            json!({"outcome": "Ok", "tree": tree(syms, &strings, &v), "hasFk": has_fk})
         }
     }
 }
